@@ -220,6 +220,16 @@ pub fn check(prop: &str, tier: &str) -> i32 {
             );
         }
     }
+    if !findings.is_empty() {
+        let mut classes: std::collections::BTreeMap<String, u64> = Default::default();
+        for f in &findings {
+            let msg: String = f["message"].as_str().unwrap_or("").chars().filter(|c| !c.is_ascii_digit()).take(70).collect();
+            *classes.entry(format!("{} | {}", f["monitor"].as_str().unwrap_or(""), msg)).or_insert(0) += 1;
+        }
+        for (k, n) in classes {
+            println!("  finding class x{n}: {k}");
+        }
+    }
     for msg in &inconclusive {
         println!("INCONCLUSIVE property={prop} {msg}");
     }
